@@ -55,3 +55,8 @@ def describe(v, tier):
                      "which of the 47 metrics are symmetric / non-negative / zero on the diagonal is decided by C08"]
     v.outside = ["n > 5"]
     v.stubs = ["numpy -> symx.symnp", "logging -> null logger"]
+
+
+def conformance(v, tier, seed):
+    from . import conform
+    return conform.gate(v, [("knn", "log_squared_euclidean"), ("knn", "bray_curtis"), ("sup", "squared_euclidean")])
